@@ -91,6 +91,8 @@ func vfProbe(s *Server, elecLow uint64, wantNH []uint64) {
 
 func vfModifyCut(sched int) {
 	s := &Server{cs: map[string]*clientState{}, masterRIB: rib0()}
+	// what an earlier session programmed (persistence PRESERVE): must survive whatever happens to this session
+	vfAddNH(s.masterRIB, DefaultNetworkInstanceName, 50)
 	id := &spb.Uint128{High: 1, Low: 5}
 	script := []*spb.ModifyRequest{
 		vfParamsMsg(),
@@ -165,6 +167,8 @@ func vfModifyCut(sched int) {
 	if st.sendFailAt < 0 && st.pos >= 2 {
 		vfAssert(s.curElecID != nil, "C10:learnt-election-id-kept")
 	}
+	vfAssert(vfNHInstalled(s.masterRIB, DefaultNetworkInstanceName, 50), "C10:entries-of-earlier-sessions-preserved")
+	have = append(have, 50)
 	vfReach("cut-done")
 	vfProbe(s, 1, have)
 	vfReach("end")
